@@ -20,7 +20,91 @@ STUB = ["design generator", "union-find over the spec's connect statements", "in
 ASSUMPTIONS = ["only legal specs (illegal ones belong to C09)"]
 
 
+def gen_funcw(c, uid):
+  """the driver of a net is a signal written only inside a helper function reached through 1..3 levels of calls"""
+  depth = c.randint(1, 3)
+  return {"uid": uid, "depth": depth, "via_child": c.random() < 0.5, "slice": c.random() < 0.4,
+          "order": c.sample(range(4), 4), "flip": [c.random() < 0.5 for _ in range(4)],
+          "other_write_in_mid": c.random() < 0.5, "inputs": [c.getrandbits(8) for _ in range(4)]}
+
+
+def funcw_source(t):
+  uid = t["uid"]
+  L = ["from pymtl3 import *", "", "class In_%s(Component):" % uid, "  def construct(s):", "    s.in_ = InPort(Bits8)",
+       "    s.out = OutPort(Bits8)", "    s.q = Wire(Bits8)", "    s.r = Wire(Bits8)", "    s.m = Wire(Bits8)"]
+  # chain of helpers: f0 writes s.q; f1 calls f0 ... ; the block calls the outermost
+  L += ["    @s.func", "    def f0():", "      s.q @= s.in_ + 1"]
+  for d in range(1, t["depth"]):
+    L += ["    @s.func", "    def f%d():" % d] + (["      s.m @= s.in_"] if t["other_write_in_mid"] and d == 1 else []) + ["      f%d()" % (d - 1)]
+  L += ["    @update", "    def up():", "      f%d()" % (t["depth"] - 1)]
+  conns = [("s.r", "s.q"), ("s.out", "s.r[0:8]" if False else "s.r")]
+  if t["slice"]:
+    L += ["    s.lo = OutPort(Bits4)"]
+    conns.append(("s.lo", "s.q[0:4]"))
+  stmts = ["connect(%s, %s)" % ((a, b) if not t["flip"][i] else (b, a)) for i, (a, b) in enumerate(conns)]
+  stmts = [stmts[i] for i in t["order"] if i < len(stmts)]
+  L += ["    " + x for x in stmts]
+  L += ["", "class Top_%s(Component):" % uid, "  def construct(s):", "    s.in_ = InPort(Bits8)", "    s.out = OutPort(Bits8)",
+        "    s.w = Wire(Bits8)", "    s.c = In_%s()" % uid]
+  tc = ["connect(s.c.in_, s.in_)" if t["flip"][3] else "connect(s.in_, s.c.in_)"]
+  tc += ["connect(s.w, s.c.out)", "connect(s.out, s.w)"] if t["via_child"] else ["connect(s.out, s.c.out)"]
+  L += ["    " + x for x in tc]
+  return "\n".join(L) + "\n"
+
+
+def run_funcw(case):
+  from ..gen import emit
+  from ..sched import harness
+  from pymtl3 import Bits8
+  t = case["tmpl"]
+  D = _rng.Digest()
+  stats = {"fault_counts": {"family.funcw": 1}, "sim_cycles": 0,
+           "probes": {"nets_multi_member": 3, "writer_is_slice_or_field": int(t["slice"]), "const_writer": 0}}
+  viols = []
+  for k, (sched, sseed) in enumerate(case["scheds"]):
+    seams.set_hash_stream(case["orderings"][k][1])
+    try:
+      ns, cls, _ = emit.build({"uid": t["uid"], "top": "Top"}, src=funcw_source(t))
+      top = cls()
+      top.elaborate()
+    except Exception as e:
+      viols.append(C.exc_violation(e, "elaborate/funcw"))
+      break
+    nets = {repr(w): sorted(repr(x) for x in net) for w, net in top.get_all_value_nets()}
+    qnet = [w for w, ms in nets.items() if "s.c.q" in ms]
+    if qnet != ["s.c.q"]:
+      viols.append(C.viol("net_writer", {"members": nets.get(qnet[0] if qnet else "", [])[:6], "got": qnet, "want": "s.c.q",
+                                         "family": "funcw"}))
+      break
+    if not {"s.c.q", "s.c.r", "s.c.out", "s.out"} <= set(nets["s.c.q"]):
+      viols.append(C.viol("net_members", {"got": nets["s.c.q"], "family": "funcw"}))
+      break
+    try:
+      harness.prepare(top, sched, sseed)
+      top.sim_reset()
+      for x in t["inputs"]:
+        top.in_ @= Bits8(x)
+        top.sim_eval_combinational()
+        got = int(top.out)
+        D.add(k, got)
+        stats["sim_cycles"] += 1
+        if got != (x + 1) & 0xff or (t["slice"] and int(top.c.lo) != (x + 1) & 15):
+          viols.append(C.viol("net_value", {"sched": sched, "got": hex(got), "want": hex((x + 1) & 0xff), "family": "funcw"}))
+          break
+        top.sim_tick()
+    except Exception as e:
+      viols.append(C.exc_violation(e, "sim/funcw"))
+    if viols:
+      break
+  return {"violations": viols[:1], "digest": D.hex(), "nontrivial": not viols, "stats": stats}
+
+
 def gen_case(R, tier):
+  if R("fam").random() < 0.04:
+    o = R("order")
+    return {"family": "funcw", "tmpl": gen_funcw(R("funcw"), "n%x" % (R.seed & 0xffffff)),
+            "orderings": [[o.getrandbits(32), o.getrandbits(32)] for _ in range(2)],
+            "scheds": [[x, R("sched").getrandbits(32)] for x in R("sched").sample(C.ALL_SCHEDS, 2)]}
   c = R("case")
   prof = designgen.profile(c.choice(["shapes", "acyclic"]))
   prof.update(p_connect=0.55, p_lambda=0.05, n_wire=(2, 7))
@@ -35,6 +119,8 @@ def gen_case(R, tier):
 
 
 def run_case(case):
+  if case.get("family") == "funcw":
+    return run_funcw(case)
   spec0 = case["spec"]
   D = _rng.Digest()
   stats = {"fault_counts": {}, "sim_cycles": 0, "probes": {"nets_multi_member": 0, "writer_is_slice_or_field": 0,
@@ -112,12 +198,18 @@ def _is_field(spec, name):
 
 def sample(case):
   from ..gen import emit
+  if case.get("family") == "funcw":
+    return {"family": "funcw", "scheds": case["scheds"], "source": funcw_source(case["tmpl"])}
   return {"orderings": case["orderings"], "scheds": case["scheds"],
           "expected_nets": [[w, sorted(m)] for w, m in E.expected_nets(case["spec"])][:6],
           "source_head": emit.source(case["spec"])[:1200]}
 
 
 def shrink(case):
+  if case.get("family") == "funcw":
+    if case["tmpl"]["depth"] > 2:
+      yield dict(case, tmpl=dict(case["tmpl"], depth=2))
+    return
   if len(case["orderings"]) > 1:
     for i in range(1, len(case["orderings"])):
       yield dict(case, orderings=[case["orderings"][0], case["orderings"][i]])
